@@ -415,12 +415,14 @@ func cmdCheck(args []string) int {
 			kname = stripOrdinal(o.Name)
 		}
 		ks, ok := kfBy[kname]
+		listedOnly := ok && len(ks) > 0 && ks[0].Witness == ""
 		if !ok {
 			// a finding about a field ("...#frame:final:T.f", "...#guarded:T.f:read") stays the same
 			// finding when the offending statement moves to another function: match by the part
 			// after the function name when the entry is written as "*#<rest>"
 			if i := strings.Index(kname, "#"); i >= 0 {
 				ks, ok = kfBy["*"+kname[i:]]
+				listedOnly = ok && len(ks) > 0 && ks[0].Witness == ""
 			}
 		}
 		if ok {
@@ -448,8 +450,8 @@ func cmdCheck(args []string) int {
 		}
 		reports = append(reports, r)
 		if handled {
-			if len(kfBy[kname]) > 0 && kfBy[kname][0].Witness == "" {
-				nObl-- // call-site findings are listed, not counted
+			if listedOnly {
+				nObl-- // findings without a witness are listed, not counted
 			}
 			continue
 		}
